@@ -113,6 +113,31 @@ def run(ctx):
             if same and len({a, b}) != 1:
                 ctx.fail("dict-key-mismatch", "equal cells are distinct dict keys", {"a": objs[i][0], "b": objs[j][0]})
     ctx.extra["eq_pairs"] = npairs
+    if ctx.thorough():
+        # three-way agreement on a sample of small trees: Model/Cell.build evaluated INSIDE Coq (vm_compute, incl. the
+        # Gallina SHA-256) against the extracted OCaml driver's result (already compared with the implementation)
+        sample = [d for d in dags if 1 < len(d) <= 5 and all(len(b) <= 40 for _, b, _ in d) and cells.tree_size(d) <= 8][:25]
+
+        def lit(d, i):
+            ty, bits, refs = d[i]
+            zt = "(Z.opp (Z.of_N %d))" % (-ty) if ty < 0 else "(Z.of_N %d)" % ty
+            return ("(Cell %s [%s] [%s])" % (zt, "; ".join("true" if ch == "1" else "false" for ch in bits),
+                                                 "; ".join(lit(d, r) for r in refs)))
+        term = ("map (fun c => match build_sha c with Ok k => of_be (k_hash k) | Err _ => 0 end) [" +
+                "; ".join(lit(d, len(d) - 1) for d in sample) + "]")
+        nums, err = core.coq_eval_numbers("Base.Bytes Base.Result Model.Cell Model.Inst", term, "c01_cases", timeout=900)
+        if nums is None:
+            ctx.broken.append("in-Coq evaluation of the cell model failed: " + err[:200])
+        else:
+            mmap = dict(zip(map(cells.dag_line, dags), model_out))
+            want = []
+            for d in sample:
+                m = mmap[cells.dag_line(d)]
+                f = dict(kv.split("=", 1) for kv in m[3:].split(" ")) if m.startswith("ok ") else {}
+                want.append(int(f.get("hashes", "0").split(",")[-1], 16) if f else 0)
+            if nums != want:
+                ctx.broken.append("extraction cross-check: Coq's vm_compute and the extracted OCaml model disagree on cell hashes")
+            ctx.extra["in_coq_cross_check_cases"] = len(sample)
     # sha256 cross-check of the Gallina implementation
     msgs = [ctx.rng.randbytes(n) for n in (0, 1, 55, 56, 63, 64, 65, 119, 120, 128, 300)]
     got = core.run_driver(["sha256 " + (m.hex() or "-") for m in msgs])
